@@ -8,3 +8,20 @@ Definition vreduce (cf : cfg) (l : list sample) : list sample := filter (is_acti
 Definition cfg_nosel (cf : cfg) : cfg :=
   {| c_calc := c_calc cf; c_hasSel := false; c_hasW := c_hasW cf; c_dateLoop := c_dateLoop cf;
      c_dateChk := c_dateChk cf; c_nvar := c_nvar cf |}.
+
+(* ---- samples whose coordinates may be undefined (the C12 model has total coordinates) ----
+   The corrected loops of Vario.cpp test "(hasSel && !isActive) || !_hasCoordinates" wherever they tested the selection:
+   a sample without coordinates is treated exactly as a masked one.  It is rendered in the C12 model as a masked sample
+   (selection column always consulted); an undefined coordinate reads TEST = 1.234e30, so that such a sample sorts last
+   and the 1-D test "x1(jech) - x1(iech) > maxdist" breaks on it, as in the code.
+   One place of the code does NOT follow this rendering yet: the first loop of Vario::_getStatistics (global mean, consumed by
+   the Poisson estimator only) has no _hasCoordinates test (check key vario:undefined-coordinate:mean, fixes/C05_7.patch). *)
+Definition big_test : Q := inject_Z (1234 * 10 ^ 27).
+Definition vcfg (cf : cfg) : cfg :=
+  {| c_calc := c_calc cf; c_hasSel := true; c_hasW := c_hasW cf; c_dateLoop := c_dateLoop cf;
+     c_dateChk := c_dateChk cf; c_nvar := c_nvar cf |}.
+Definition has_coords (c : list (option Q)) : bool := forallb (fun o => match o with Some _ => true | None => false end) c.
+Definition vusable (cf : cfg) (x : list (option Q) * sample) : bool := is_active cf (snd x) && has_coords (fst x).
+Definition vembed (cf : cfg) (x : list (option Q) * sample) : sample :=
+  {| s_x := map (fun o => match o with Some v => v | None => big_test end) (fst x);
+     s_sel := vusable cf x; s_w := s_w (snd x); s_date := s_date (snd x); s_z := s_z (snd x) |}.
